@@ -13,7 +13,7 @@ use crate::{ClientMessage, Response};
 use futures::{Sink, Stream, StreamExt};
 use std::pin::Pin;
 use std::task::{Context, Poll, Waker};
-use tokio::sync::oneshot;
+use super::oneshot;
 use tracing::Span;
 
 #[cfg(kani)]
